@@ -283,3 +283,7 @@ pub mod master_probe;
 // C01: formatting `tracing` sink, so that the decode-level Display paths really run
 #[path = "trace_sink.rs"]
 pub mod trace_sink;
+
+// C09: device attributes (group 0): attribute database, response writers, request builder, parser
+#[path = "attr_probe.rs"]
+pub mod attr_probe;
